@@ -278,7 +278,15 @@ pub fn op_writer(session: &mut Session, cmd: &J) -> Result<J, String> {
 					(Some(w), _) => w.inner().got.len(),
 					(None, _) => usize::MAX, // filled in below from the sink itself
 				};
-				out_steps.push(json!({"res": res, "msg": msg, "sink_len": if len_now == usize::MAX { J::Null } else { json!(len_now) }}));
+				#[allow(unused_mut)]
+				let mut step = json!({"res": res, "msg": msg, "sink_len": if len_now == usize::MAX { J::Null } else { json!(len_now) }});
+				// hook: the writer's own view after the call (objects in the open block, a finished block awaiting its flush, bytes buffered)
+				#[cfg(ten0_serde_avro_fast_verif)]
+				if let Some(w) = &writer {
+					let (n, pending, buf) = w.verif_state();
+					step["hs"] = json!([n, pending as u8, buf]);
+				}
+				out_steps.push(step);
 				if len_now != usize::MAX {
 					last_len = len_now;
 				}
@@ -364,13 +372,16 @@ where
 	for _ in 0..n_calls {
 		let r = reader.deserialize_seed_next(Cap::root(&ctx));
 		#[cfg(ten0_serde_avro_fast_verif)]
-		let st = reader.verif_state().0;
+		let (st, left, latch) = {
+			let (a, b, c) = reader.verif_state();
+			(a, b as i64, c as i64)
+		};
 		#[cfg(not(ten0_serde_avro_fast_verif))]
-		let st = "unknown";
+		let (st, left, latch) = ("unknown", -1i64, -1i64);
 		match r {
-			Ok(Some(v)) => results.push(json!({"r": "some", "value": v, "st": st})),
-			Ok(None) => results.push(json!({"r": "none", "st": st})),
-			Err(e) => results.push(json!({"r": "err", "io": e.io_error().is_some(), "msg": e.to_string(), "st": st})),
+			Ok(Some(v)) => results.push(json!({"r": "some", "value": v, "st": st, "left": left, "latch": latch})),
+			Ok(None) => results.push(json!({"r": "none", "st": st, "left": left, "latch": latch})),
+			Err(e) => results.push(json!({"r": "err", "io": e.io_error().is_some(), "msg": e.to_string(), "st": st, "left": left, "latch": latch})),
 		}
 	}
 	let st = ctx.stats.borrow();
